@@ -47,7 +47,12 @@ RULE = ('case 0 = the reference against 22 hand-written expectations; every othe
         'one directed group each whose literal prefix ends in or passes through the link '
         '(sometimes with a second base beside or above it); 15 % of the cases hand the '
         'source directory itself to bfg9000 through a symlink (configure-into) '
-        '(55-90 calls per script; plus "small" cases of 4-9 calls on '
+        '; 20 % (35 % in small cases) of the groups with extra= or a filter never run with '
+        'cache=True (base and repeat with cache=False, dist=True, no cache-flipped twin), and '
+        'every tree gets 2 (small: 1) groups of directory(name, include=..)/'
+        'header_directory(name, include=..) calls, half of them with cache=False, with '
+        'extra=/filter_by_platform/lambda filters returning not_now '
+        '(60-100 calls per script; plus "small" cases of 4-9 calls on '
         '12-30 entries so that the global dist check is not masked by other calls); '
         'distinct = (tree digest, patterns, type, extra, exclude, '
         'find_exclude, filter); non-trivial = the reference selects at least one entry and '
@@ -70,6 +75,10 @@ ASSUMPTIONS = [
     'Makefile (shlex after $$ -> $), cross-checked against the archive written by the real '
     'doppel in the real_dist subset',
     'target platform is linux/posix (filter_by_platform)',
+    'directory()/header_directory(): the search type is undocumented, so their selection is '
+    'only bounded from above (union of the readings type="*" and type="f") and their dist '
+    'demands are what both readings demand; header_directory() is only given header '
+    'patterns because it raises AttributeError for a found file without a known language',
 ]
 
 BFG = os.path.join(core.VENV_BIN, 'bfg9000')
@@ -98,6 +107,7 @@ def floors(tier):
     # about half of what seeds 0-2 produce on the unchanged tree
     if tier == 'quick':
         return {'reference-selfchecks': 22, 'calls-judged': 1800,
+                'directory-calls-judged': 200,
                 'entries-compared': 50000, 'selected-must': 7000,
                 'exists-checked': 8000, 'lists-checked-for-duplicates': 1800,
                 'repeat-compared': 450,
@@ -107,6 +117,7 @@ def floors(tier):
                 'dist-entries-checked': 6000, 'real-dist-runs': 3,
                 'distinct_nontrivial': 600}
     return {'reference-selfchecks': 22, 'calls-judged': 30000,
+            'directory-calls-judged': 3000,
             'entries-compared': 900000, 'selected-must': 150000,
             'exists-checked': 170000, 'lists-checked-for-duplicates': 30000,
             'repeat-compared': 7000,
@@ -563,6 +574,12 @@ def gen_group(rng, g, ctx, small=False, preset=None, preset_wants=None):
     out = [base, dict(base, role='repeat',
                       fn=rng.choice(['find_files', 'find_paths'])),
            dict(base, role='flip', cache=not base['cache'])]
+    # groups that never run with cache=True, so that what an uncached search
+    # owes the source distribution is not supplied by its cached twin
+    nocache_only = bool(extra or flt) and rng.random() < (0.35 if small else 0.2)
+    if nocache_only:
+        base['cache'], base['dist'] = False, True
+        out = [base, dict(out[1], cache=False, dist=True)]
 
     nvar = rng.choice([0, 1, 1, 2]) if not small else rng.choice([1, 2])
     for v in range(nvar):
@@ -572,7 +589,7 @@ def gen_group(rng, g, ctx, small=False, preset=None, preset_wants=None):
             fields += ['dist'] * 4
         field = rng.choice(fields)
         var = json.loads(json.dumps(base))
-        var['cache'] = True
+        var['cache'] = not nocache_only
         var['role'] = 'variant:' + field
         if field == 'type':
             has_slash = (any(p['s'].endswith('/') for p in pats) or fe_slash or
@@ -626,6 +643,68 @@ def gen_group(rng, g, ctx, small=False, preset=None, preset_wants=None):
     return out
 
 
+def gen_dir_group(rng, g, ctx, small=False):
+    """directory(name, include=...) / header_directory(name, include=...):
+    "include, extra, exclude, filter, dist and cache are forwarded to
+    find_files".  -> list of call dicts or []"""
+    src_entries = ctx['src_entries']
+    fe_slash = any(x.endswith('/') for x in ctx['find_exclude'])
+    dirs = [d for d in ctx['src_dirs'] if d and
+            not any(refglob.is_glob_component(c) for c in d) and
+            sum(1 for e in src_entries if e[0][:len(d)] == d and
+                len(e[0]) > len(d)) >= 2]
+    if not dirs:
+        return []
+    d = rng.choice(dirs)
+    below = [e for e in src_entries if e[0][:len(d)] == d and len(e[0]) > len(d)]
+    name = '/'.join(d)
+    include = []
+    for _ in range(rng.choice([1, 1, 2])):
+        p = derive_pattern(rng, below, min_prefix=len(d))
+        if p and p[0].startswith(name + '/'):
+            include.append(p[0][len(name) + 1:])
+        else:
+            include.append(rng.choice(['*', '*.h', '**/*.h', '**/*', '*.[ch]']))
+    fn = 'directory' if fe_slash or rng.random() < 0.5 else 'header_directory'
+    allow_slash = fn == 'directory'
+    if fn == 'header_directory':
+        # header_directory() raises AttributeError ('File' object has no
+        # attribute 'lang') as soon as a found file has no known language
+        # (README, x.bak): not a matter of which files are found - only header
+        # patterns here
+        include = [rng.choice(['*.h', '**/*.h', '*.hpp', '**/*.hpp', '*/*.h',
+                               '[uwxyz]*.h', '?*.h'])
+                   for _ in include]
+
+    def globs(prob):
+        if rng.random() >= prob:
+            return None
+        return [simple_glob(rng, below, allow_slash)
+                for _ in range(rng.choice([1, 1, 2]))]
+    extra = globs(0.7)
+    exclude = globs(0.3)
+    r = rng.random()
+    flt, fid = None, None
+    if r < 0.3:
+        flt, fid = 'platform', 'platform'
+    elif r < 0.55:
+        flt, fid = gen_rules(rng, below), 'g%d' % g
+        # make sure the diverting verdict occurs
+        flt['rules'].append([rng.choice(['base_endswith', 'base_contains']),
+                             rng.choice(['.h', '.c', 'a', '.']), 'not_now'])
+    base = {'fn': fn, 'dirname': name, 'include': include,
+            'patterns': [{'s': name + '/' + i, 'root': None, 'obj': False}
+                         for i in include],
+            'scalar': len(include) == 1 and rng.random() < 0.5, 'type': None,
+            'extra': extra, 'exclude': exclude, 'filter': flt, 'fid': fid,
+            'dist': rng.random() < 0.85, 'cache': rng.random() < 0.5,
+            'group': g, 'role': 'base'}
+    out = [base, dict(base, role='repeat')]
+    if base['cache']:
+        out.append(dict(base, role='flip', cache=False))
+    return out
+
+
 def gen_case(seed, idx, small):
     rng = core.rng_for(seed, 'c11', idx)
     tree = gen_tree(rng, 25, 70) if not small else gen_tree(rng, 12, 30)
@@ -654,6 +733,9 @@ def gen_case(seed, idx, small):
         pats, wants = symlink_base_patterns(rng, ctx, li)
         calls.extend(gen_group(rng, g, ctx, small, preset=pats,
                                preset_wants=wants))
+        g += 1
+    for _ in range(2 if not small else 1):
+        calls.extend(gen_dir_group(rng, g, ctx, small))
         g += 1
     budget = len(calls) + (rng.randint(28, 40) if not small else
                            rng.randint(4, 9))
@@ -824,6 +906,18 @@ def _ser(x):
     return [p.root.name, p.suffix, bool(p.directory), type(x).__name__]
 
 
+def _calld(i, fn, name, kw):
+    _os.environ['VF_CALL'] = str(i)
+    try:
+        r = fn(name, **kw)
+        rec = {'i': i, 'ok': [_ser(x) for x in (r.files or [])]}
+    except Exception as e:
+        rec = {'i': i, 'error': type(e).__name__, 'msg': str(e)[:300]}
+    _os.environ['VF_CALL'] = ''
+    with open(_OUT, 'a') as f:
+        f.write(_json.dumps(rec) + '\n')
+
+
 def _call(i, fn, pats, kw):
     _os.environ['VF_CALL'] = str(i)
     try:
@@ -882,6 +976,13 @@ def write_script(path, case, out, extdir):
             kw.append("'dist': %r" % bool(c.get('dist', True)))
         if not c.get('cache', True) or i % 3 == 1:
             kw.append("'cache': %r" % bool(c.get('cache', True)))
+        if c['fn'] in DIR_FNS:
+            inc = c['include']
+            kw.insert(0, "'include': %r" % (inc[0] if c.get('scalar') and
+                                            len(inc) == 1 else list(inc)))
+            lines.append('_calld(%d, %s, %r, {%s})' % (i, c['fn'], c['dirname'],
+                                                       ', '.join(kw)))
+            continue
         lines.append('_call(%d, %s, %s, {%s})' % (i, c['fn'], parg, ', '.join(kw)))
     with open(path, 'w', encoding='utf-8') as f:
         f.write('\n'.join(lines) + '\n')
@@ -889,6 +990,16 @@ def write_script(path, case, out, extdir):
 
 # --------------------------------------------------------------------------
 # judging
+
+# the type directory()/header_directory() search with is not documented: the
+# selection is judged two-sidedly over both readings, the coded one is only
+# used to tell which calls share a cache entry
+DIR_FNS = {'directory': '*', 'header_directory': 'f'}
+
+
+def call_type(c):
+    return DIR_FNS.get(c['fn'], c.get('type'))
+
 
 def eff_root(p):
     if p['s'].startswith(('/', '@EXT@')):
@@ -900,7 +1011,7 @@ def cache_spec(c, find_exclude=()):
     """What FileFilter equality is made of, in the script's terms: every glob
     with its *effective* type (type=None infers it from the trailing slash, so
     type='f' and type=None can denote the same filter)."""
-    t = c.get('type')
+    t = call_type(c)
 
     def eff(g):
         return t if t is not None else ('d' if g.endswith('/') else 'f')
@@ -1064,7 +1175,8 @@ def _run_case(case, res, scratch):
         return refs[k]
 
     def show(c):
-        return {'fn': c['fn'],
+        return {'fn': c['fn'], 'directory': c.get('dirname'),
+                'include': c.get('include'),
                 'patterns': [p['s'] + ('' if eff_root(p) == 'srcdir' else
                                        ' @' + eff_root(p)) for p in c['patterns']],
                 'type': c.get('type'), 'extra': c.get('extra'),
@@ -1094,7 +1206,22 @@ def _run_case(case, res, scratch):
             res.classes.add('exclude')
         wit_base = {'call': show(c), 'find_exclude': case['find_exclude'],
                     '__case__': mini_case(case, c['group'])}
-        sel = reference(c)
+        if c['fn'] in DIR_FNS:
+            # undocumented search type: upper bound = union over the readings
+            # '*' and 'f', distribution demands = what both readings demand,
+            # no lower bound on the selection
+            sa = reference(dict(c, type='*'))
+            sb = reference(dict(c, type='f'))
+            sel = {'must': set(), 'may': sa['may'] | sb['may'],
+                   'universe': sa['universe'] | sb['universe'],
+                   'must_dist': sa['must_dist'] & sb['must_dist'],
+                   'info': {**sb['info'], **sa['info']},
+                   'patterns': sa['patterns']}
+            res.ev('directory-calls-judged')
+            res.classes.add('fn:' + c['fn'] + (':cache=False' if not c['cache']
+                                               else ''))
+        else:
+            sel = reference(c)
         pc = patclass(sel)
         res.classes.add(pc[0])
         res.classes.add(pc[1])
@@ -1350,6 +1477,8 @@ def _run_case(case, res, scratch):
         first = first_with_spec.get(cache_spec(c, case['find_exclude']))
         if foreign:
             how = 'served-from-foreign-cache-entry'
+        elif not cached and not c.get('cache', True):
+            how = 'computed-without-cache'
         elif not cached:
             how = 'computed'
         elif first is not None and not calls[first].get('dist', True):
